@@ -294,6 +294,16 @@ func (n *nodeJSON) UnmarshalJSON(b []byte) error {
 	// > This key is treated as the name of an extension function or method. The value must
 	// > be a JSON array of values, each of which is itself an JsonExpr object. Note that for
 	// > method calls, the method receiver is the first argument.
+	//
+	// An extension call is the only key of its object. Reject anything else here: the known keys of such an object
+	// were already decoded above, and decoding them a second time doubles the work at every level of nesting.
+	var keys map[string]json.RawMessage
+	if err := json.Unmarshal(b, &keys); err != nil {
+		return err
+	}
+	if len(keys) != 1 {
+		return fmt.Errorf("unexpected number of extensions in node: %v", len(keys))
+	}
 	return json.Unmarshal(b, &n.ExtensionCall)
 }
 
